@@ -19,12 +19,22 @@ structure Ext where
   created : List Batch := []
   createdCalls : List Call := []
   callDone : List Nat := []
+  /-- every transfer as its creator supplied it (ghost log of successful `SendToExternal`) -/
+  sent : List Tx := []
+  /-- every successful fee increase: (transfer id, added fee) -/
+  raised : List (Nat × Nat) := []
 
 /-- how one operation on fxcore (creation) or one observed event (execution) moves the ghost -/
 def Ext.next (x : Ext) (s : State) (op : Op) : Ext :=
   match op with
   | .reqBatch _ _ _ _ => { x with created := x.created ++ (step s op).1.batches.drop s.batches.length }
   | .bridgeCall _ _ _ _ _ _ => { x with createdCalls := x.createdCalls ++ (step s op).1.calls.drop s.calls.length }
+  | .send a d t am f =>
+    if (step s op).1.nextTxId = s.nextTxId + 1 then { x with sent := x.sent ++ [⟨s.nextTxId, a, d, t, am, f⟩] } else x
+  | .incFee id _ _ add =>
+    match (step s op).2 with
+    | .ok _ => { x with raised := x.raised ++ [(id, add)] }
+    | _ => x
   | .observe h (.batch t n) => { x with height := h, lastNonce := fun t' => if t' = t then n else x.lastNonce t' }
   | .observe h (.result c _) => { x with height := h, callDone := c :: x.callDone }
   | .observe h .other => { x with height := h }
@@ -43,6 +53,9 @@ def admissible (x : Ext) : Op → Prop
 def AdmissibleRun : State → Ext → List Op → Prop
   | _, _, [] => True
   | s, x, op :: ops => admissible x op ∧ AdmissibleRun (step s op).1 (x.next s op) ops
+
+/-- everything paid on top of the original fee of transfer `id` -/
+def raisedSum (r : List (Nat × Nat)) (id : Nat) : Nat := ((r.filter (fun p => p.1 = id)).map (·.2)).sum
 
 def runExt : State → Ext → List Op → State × Ext
   | s, x, [] => (s, x)
